@@ -730,7 +730,7 @@ func runC05(c *lib.Ctx) {
 	nTriples := len(cases) - nSweep
 
 	// --- composite, seeded: integers up to 200 bits and ratios thereof
-	nRandom := c.Scale(30000, 600000)
+	nRandom := c.Scale(30000, 2000000)
 	randOperand := func(dom string) c05Operand {
 		bits := []int{8, 31, 33, 62, 63, 64, 65, 100, 200}[c.Rng.Intn(9)]
 		n := c.Rng.BigBits(bits)
@@ -801,80 +801,92 @@ func runC05(c *lib.Ctx) {
 		}
 		return c05Case{op, args, false}
 	}
-	for i := 0; i < nRandom; i++ {
-		cs := randCase()
-		for try := 0; try < 50 && avoid.listed(cs); try++ {
-			avoided++
-			cs = randCase()
+	// --- run model and implementation, batch by batch (bounds memory in the thorough tier)
+	agree, total := 0, 0
+	runBatch := func(batch []c05Case) {
+		reqs := make([]string, len(batch))
+		for i, cs := range batch {
+			reqs[i] = cs.request()
 		}
-		if avoid.listed(cs) {
-			continue
-		}
-		if cs.hasFloat() {
-			// mixed float formats compared with each other are outside the quantifier
-			kinds := map[string]bool{}
+		replies := c.Model(reqs)
+		for i, cs := range batch {
+			impl, mutated, fault, msg := c05Impl(cs)
+			model := replies[i]
+			nontrivial := false
 			for _, a := range cs.args {
-				if a.kind != "q" {
-					kinds[a.kind] = true
+				if !a.rat.IsInt() || a.rat.Num().BitLen() >= 31 {
+					nontrivial = true
 				}
 			}
-			if len(kinds) > 1 {
+			c.Ev.Case(reqs[i], nontrivial)
+			c.Ev.Hist("op", cs.op.name)
+			c.Ev.Hist("nargs", fmt.Sprint(len(cs.args)))
+			for _, a := range cs.args {
+				c.Ev.Hist("operand_class", a.class())
+			}
+			mw := strings.Fields(model)
+			if mw[0] == "err" {
+				c.Ev.Hist("model_outcome", strings.Join(mw, " "))
+			} else if len(mw) > 1 {
+				t, _, _ := strings.Cut(mw[1], ":")
+				c.Ev.Hist("model_outcome", t)
+			}
+			if total%25013 == 0 {
+				c.Ev.Sample(map[string]string{"case": cs.lisp(), "impl": impl, "model": model})
+			}
+			total++
+			if fault {
+				c.Report(c05Signature(cs, model, "go-fault"), cs.sweep, map[string]any{"input": cs.lisp(), "request": reqs[i], "observed": impl + " " + msg, "expected": model, "expected_from": "model:num"})
 				continue
 			}
-		}
-		cases = append(cases, cs)
-	}
-	nRandom = len(cases) - nSweep - nTriples
-
-	// --- run model and implementation
-	reqs := make([]string, len(cases))
-	for i, cs := range cases {
-		reqs[i] = cs.request()
-	}
-	replies := c.Model(reqs)
-	agree := 0
-	for i, cs := range cases {
-		impl, mutated, fault, msg := c05Impl(cs)
-		model := replies[i]
-		nontrivial := false
-		for _, a := range cs.args {
-			if !a.rat.IsInt() || a.rat.Num().BitLen() >= 31 {
-				nontrivial = true
+			if mutated {
+				c.Report(c05Signature(cs, model, "operand-mutated"), cs.sweep, map[string]any{"input": cs.lisp(), "request": reqs[i], "observed": "an operand object changed its value during the call", "expected": "operands unchanged", "expected_from": "property statement"})
 			}
+			aspect := c05Disagree(cs, impl, model)
+			if aspect == "" {
+				agree++
+				continue
+			}
+			c.Report(c05Signature(cs, model, aspect), cs.sweep, map[string]any{"input": cs.lisp(), "request": reqs[i], "observed": impl, "expected": model, "expected_from": "model:num",
+				"relies_on": []string{"SlipVerif.Theorems.C05", "SlipVerif.Theorems.C05Impl"}})
 		}
-		c.Ev.Case(reqs[i], nontrivial)
-		c.Ev.Hist("op", cs.op.name)
-		c.Ev.Hist("nargs", fmt.Sprint(len(cs.args)))
-		for _, a := range cs.args {
-			c.Ev.Hist("operand_class", a.class())
-		}
-		mw := strings.Fields(model)
-		if mw[0] == "err" {
-			c.Ev.Hist("model_outcome", strings.Join(mw, " "))
-		} else if len(mw) > 1 {
-			t, _, _ := strings.Cut(mw[1], ":")
-			c.Ev.Hist("model_outcome", t)
-		}
-		if i%(len(cases)/10+1) == 0 {
-			c.Ev.Sample(map[string]string{"case": cs.lisp(), "impl": impl, "model": model})
-		}
-		if fault {
-			c.Report(c05Signature(cs, model, "go-fault"), cs.sweep, map[string]any{"input": cs.lisp(), "request": reqs[i], "observed": impl + " " + msg, "expected": model, "expected_from": "model:num"})
-			continue
-		}
-		if mutated {
-			c.Report(c05Signature(cs, model, "operand-mutated"), cs.sweep, map[string]any{"input": cs.lisp(), "request": reqs[i], "observed": "an operand object changed its value during the call", "expected": "operands unchanged", "expected_from": "property statement"})
-		}
-		aspect := c05Disagree(cs, impl, model)
-		if aspect == "" {
-			agree++
-			continue
-		}
-		c.Report(c05Signature(cs, model, aspect), cs.sweep, map[string]any{"input": cs.lisp(), "request": reqs[i], "observed": impl, "expected": model, "expected_from": "model:num",
-			"relies_on": []string{"SlipVerif.Theorems.C05"}})
 	}
+	runBatch(cases) // sweep + triples
+	cases = nil
+
+	// --- composite, seeded: random cases in batches
+	nGenerated := 0
+	for done := 0; done < nRandom; {
+		var batch []c05Case
+		for ; done < nRandom && len(batch) < 100000; done++ {
+			cs := randCase()
+			for try := 0; try < 50 && avoid.listed(cs); try++ {
+				avoided++
+				cs = randCase()
+			}
+			if avoid.listed(cs) {
+				continue
+			}
+			if cs.hasFloat() {
+				// mixed float formats compared with each other are outside the quantifier
+				kinds := map[string]bool{}
+				for _, a := range cs.args {
+					if a.kind != "q" {
+						kinds[a.kind] = true
+					}
+				}
+				if len(kinds) > 1 {
+					continue
+				}
+			}
+			batch = append(batch, cs)
+		}
+		nGenerated += len(batch)
+		runBatch(batch)
+	}
+	nRandom = nGenerated
 	c05Dump(c)
-	c.Ev.Coverage["traces_validated_against_impl"] = len(cases)
+	c.Ev.Coverage["traces_validated_against_impl"] = total
 	c.Ev.Coverage["agreements"] = agree
 	c.Ev.Coverage["sweep_cases"] = nSweep
 	c.Ev.Coverage["triple_cases"] = nTriples
